@@ -12,8 +12,25 @@ import Jqawk.Model.Natives
 namespace Jqawk.FactsTie
 open Jqawk
 
-/-- the Pratt rule table the model parser is driven by is the one in src/parser.go -/
-theorem ruleTable_tie : Generated.ruleTable = expectedRuleTable := by decide
+/-- rows in token-tag order (the extractor emits them sorted the same way, so the order of the
+    entries in the Go map literal does not matter) -/
+def insRow (r : Tag × ParseRule) : RuleTable → RuleTable
+  | [] => [r]
+  | x :: xs => if r.1.ctorIdx ≤ x.1.ctorIdx then r :: x :: xs else x :: insRow r xs
+def canonTable : RuleTable → RuleTable
+  | [] => []
+  | r :: rs => insRow r (canonTable rs)
+
+/-- nothing went wrong while extracting (every parse function of the table plays exactly one
+    role, no duplicate entries, every precedence known, …) -/
+theorem extractProblems_tie : Generated.extractProblems = [] := by decide
+
+/-- the Pratt rule table the model parser is driven by is the one in src/parser.go: same entry
+    for every token (parse functions identified by the role they play for the anchor tokens,
+    not by name; entry order irrelevant — the model looks entries up by tag, and no tag occurs
+    twice) -/
+theorem ruleTable_tie : Generated.ruleTable = canonTable expectedRuleTable ∧
+    (expectedRuleTable.map (·.1)).Nodup := by decide
 
 /-- the token tags, in Go's iota order (the model's `Tag` mirrors this order) -/
 theorem tokenTags_tie : Generated.tokenTags =
@@ -30,16 +47,17 @@ theorem precNames_tie : Generated.precNames =
    "PrecPostfix", "PrecUnary", "PrecCall", "PrecGroup"] := by decide
 
 /-- what decides associativity: how `binary`, `assign` and `unary` parse their operand -/
-theorem operandPrec_binary_tie : Generated.operandPrec_binary = "p.rule(opToken.Tag).prec + 1" := by decide
-theorem operandPrec_assign_tie : Generated.operandPrec_assign = "p.rule(opToken.Tag).prec" := by decide
+theorem operandPrec_binary_tie : Generated.operandPrec_binary = "rule(·).prec+1" := by decide
+theorem operandPrec_assign_tie : Generated.operandPrec_assign = "rule(·).prec" := by decide
 theorem operandPrec_unary_tie : Generated.operandPrec_unary = "PrecUnary" := by decide
 
+/-- the keyword table (sorted by keyword; a `switch` and a map literal are read alike) -/
 theorem keywords_tie : Generated.keywords =
-  [("BEGIN", "Begin"), ("END", "End"), ("BEGINFILE", "BeginFile"), ("ENDFILE", "EndFile"),
-   ("print", "Print"), ("$", "Dollar"), ("function", "Function"), ("return", "Return"), ("if", "If"),
-   ("else", "Else"), ("for", "For"), ("while", "While"), ("in", "In"), ("match", "Match"),
-   ("true", "True"), ("false", "False"), ("break", "Break"), ("continue", "Continue"),
-   ("next", "Next"), ("exit", "Exit"), ("null", "Null"), ("is", "Is")] := by decide
+  [("$", "Dollar"), ("BEGIN", "Begin"), ("BEGINFILE", "BeginFile"), ("END", "End"), ("ENDFILE", "EndFile"),
+   ("break", "Break"), ("continue", "Continue"), ("else", "Else"), ("exit", "Exit"), ("false", "False"),
+   ("for", "For"), ("function", "Function"), ("if", "If"), ("in", "In"), ("is", "Is"), ("match", "Match"),
+   ("next", "Next"), ("null", "Null"), ("print", "Print"), ("return", "Return"), ("true", "True"),
+   ("while", "While")] := by decide
 
 /-- the limits of C20 -/
 theorem callDepthLimit_tie : Generated.callDepthLimit = callDepthLimit := by decide
@@ -47,11 +65,17 @@ theorem fillLimit_tie : Generated.setMemberComparisons = ["> 1024*1024"] ∧ fil
 theorem getMember_never_fills : Generated.getMemberComparisons = ["< 0", "< 0", "< 0"] := by decide
 theorem widthLimit_tie : Generated.printfComparisons.take 3 = ["< 1", "> 65536", "< -65536"] ∧ widthLimit = 65536 := by decide
 
-/-- the explicit `panic(` sites; each has a model counterpart shown unreachable (C01) -/
+/-- the explicit `panic(` sites, by message (where they stand and what the enclosing function is
+    called does not matter). Model counterparts: "unhandled literal type" and "speculative object
+    has no …" are `throwPanic` sites shown unreachable (`C01.run_never_panics_src`); "unhandled
+    (comparison) operator", "attempted compound assignment", "expected a regex token",
+    "unhandled value constructor" and "unknown rule type" are default branches of switches over
+    closed enumerations that the model's total pattern matches do not have. -/
 theorem panicSites_tie : Generated.panicSites =
-  ["evaluator.go:createSpeculativeObjects", "evaluator.go:evalBinaryExpr", "evaluator.go:evalBinaryExpr",
-   "evaluator.go:evalExpr", "evaluator.go:readRules", "parser.go:regex",
-   "parser.go:rewriteCompundAssingment", "value.go:NewValue"] := by decide
+  ["\"attempted compound assignment with %s\"", "\"expected a regex token but got %s\"",
+   "\"speculative object has no Str or Num\"", "\"unhandled comparison operator\"",
+   "\"unhandled literal type: %s\"", "\"unhandled operator\"", "\"unhandled value constructor %T\"",
+   "\"unknown rule type %s\""] := by decide
 
 /-- every `range` over a Go map (iteration order is random), found with go/types: the two
     match-binding maps and NewValue's JSON object (each only inserts into another map, no early
@@ -61,12 +85,12 @@ theorem mapRanges_tie : Generated.mapRangeSites =
     ["evaluator.go:evalArrayCaseMatch:newBindings", "evaluator.go:evalExpr:bindings",
      "value.go:NewValue:val", "value.go:sortedKeys:*v.Obj"] := by decide
 
-/-- package-level mutable state: limits, sentinel errors and the lazily built prototype tables -/
+/-- package-level variables that are written after initialisation (mutable global state through
+    which one run could influence the next): only the four lazily built prototype tables, which
+    are filled once with the same content whatever the program (C10 history-independence family);
+    limits, sentinel errors and lookup tables are never written -/
 theorem packageVars_tie : Generated.packageVars =
-  ["evaluator.go:callDepthLimit", "evaluator.go:errBreak", "evaluator.go:errContinue",
-   "evaluator.go:errExit", "evaluator.go:errNext", "evaluator.go:errReturn",
-   "evaluator.go:fuzzingLoopLimit", "prototypes.go:arrayPrototype", "prototypes.go:numPrototype",
-   "prototypes.go:objPrototype", "prototypes.go:strPrototype"] := by decide
+  ["arrayPrototype", "numPrototype", "objPrototype", "strPrototype"] := by decide
 
 /-- no time, randomness, environment or concurrency in the interpreter package -/
 theorem imports_tie : Generated.nondeterministicImports = [] := by decide
